@@ -102,7 +102,7 @@ OPS_ANY = ['etag-mismatch', 'drop-etag', 'drop-stag', 'two-roots', 'text-after-r
            'dup-attr', 'missing-eq', 'missing-quote', 'no-ws-attrs', 'lt-in-attr', 'bare-amp-text', 'bare-amp-attr', 'unterminated-ref',
            'cdata-end-in-text', 'dashdash-in-comment', 'comment-dash-end', 'unterminated-comment', 'unterminated-pi', 'unterminated-cdata',
            'pi-target-xml', 'pi-target-XmL', 'xmldecl-not-first', 'xmldecl-no-version', 'xmldecl-bad-version', 'xmldecl-order', 'xmldecl-standalone-maybe',
-           'charref-0', 'charref-fffe', 'charref-d800', 'charref-110000', 'charref-1', 'charref-empty', 'raw-control', 'control-after-root', 'control-before-root', 'raw-ffff',
+           'charref-0', 'charref-fffe', 'charref-d800', 'charref-110000', 'charref-1', 'charref-empty', 'raw-control', 'control-after-root', 'control-before-root', 'control-in-dtd', 'raw-ffff',
            'bad-name-start', 'space-after-lt', 'attr-no-value', 'truncate', 'undeclared-entity',
            'recursive-entity', 'recursive-entity-indirect', 'ext-entity-in-attr', 'unparsed-entity-in-content', 'entity-unbalanced', 'lt-via-entity-in-attr',
            'pe-in-decl-internal', 'etag-with-attr', 'nested-doctype', 'doctype-after-root', 'amp-in-entity-value', 'attr-unquoted', 'dup-attr-many']
@@ -112,7 +112,7 @@ OPS_NS = ['ns-unbound-elem', 'ns-unbound-attr', 'ns-xml-rebind', 'ns-xmlns-prefi
 OPS_BYTES = ['utf8-c0-80', 'utf8-surrogate', 'utf8-f4-90', 'utf8-lone-cont', 'utf8-5byte', 'utf8-trunc-mid', 'utf8-trunc-eof', 'utf8-fe', 'utf8-overlong-e0']
 # operators that remain single-constraint violations under XML 1.1 as well (1.1 has no second witness, keep to clear-cut ones)
 OPS_V11 = {'etag-mismatch', 'drop-etag', 'two-roots', 'text-after-root', 'cdata-after-root', 'dup-attr', 'missing-eq', 'no-ws-attrs', 'lt-in-attr',
-           'bare-amp-text', 'cdata-end-in-text', 'dashdash-in-comment', 'charref-0', 'charref-fffe', 'charref-d800', 'charref-110000', 'raw-control', 'control-after-root', 'control-before-root',
+           'bare-amp-text', 'cdata-end-in-text', 'dashdash-in-comment', 'charref-0', 'charref-fffe', 'charref-d800', 'charref-110000', 'raw-control', 'control-after-root', 'control-before-root', 'control-in-dtd',
            'truncate', 'attr-no-value', 'bad-name-start', 'pi-target-xml', 'ns-unbound-elem', 'ns-two-colons', 'utf8-c0-80', 'utf8-surrogate',
            'utf8-f4-90', 'utf8-lone-cont', 'no-root', 'etag-with-attr', 'attr-unquoted', 'ns-sibling-scope', 'ns-cousin-scope', 'ns-child-scope-after-end', 'dup-attr-many', 'ns-dup-expanded-attr-many'}
 
@@ -170,6 +170,8 @@ def mutate(text, d, op, k):
     if op == 'text-after-root': return ins(root_e, 'x')
     if op == 'text-before-root': return ins(root_s, 'x')
     if op == 'control-after-root': return ins(root_e, ['\x00', '\n\x00', '\x00 junk <', '<!--c-->\x00', '\x01', '\n \x0b', '\x00<b/>', '\x1f'][k % 8])     # U+0000 must not read as end of input
+    if op == 'control-in-dtd':      # U+0000 between declarations, directly or through a parameter entity: must not read as the end of the subset
+        return _add_decls(text, toks, d, ['\x00', '<!-- c -->\x00<!-- d -->', '<!ENTITY %% zq "<!-- q -->%s<!-- r -->">%%zq;' % '\x00', '\x01'][k % 4])
     if op == 'control-before-root': return ins(root_s, ['\x00', '\x01', '\x0c'][k % 3])
     if op == 'cdata-after-root': return ins(root_e, '<![CDATA[x]]>')
     if op == 'no-root': return text[:root_s] + text[root_e:]
